@@ -287,7 +287,7 @@ def table_for(draw, spec, version, used, min_rows=1, max_rows=6, hed_column=None
         row = []
         for h in header:
             if h == "onset":
-                row.append(str(r * 1.5 + 0.5))
+                row.append(str(round(r * 3.7 + 0.5, 2)))   # 0.5, 4.2, 7.9, 11.6, ...: string order != numeric order
             elif h == "duration":
                 row.append("n/a")
             elif h == "unrelated":
